@@ -117,8 +117,9 @@ class RpcServer(PduPeer):
     ack_token_empty_trailer (send an auth trailer with empty value on the last leg).
     """
 
-    def __init__(self, interfaces: dict, acceptor_factory=None, knobs: t.Optional[dict] = None, name: str = "srv"):
+    def __init__(self, interfaces: dict, acceptor_factory=None, knobs: t.Optional[dict] = None, name: str = "srv", codec=None):
         super().__init__()
+        self.codec = codec or rpce  # ref.rpce, or simworld.libcodec (dpapi_ng's own server-direction codecs = "LibDC")
         self.interfaces = interfaces
         self.acceptor_factory = acceptor_factory
         self.knobs = knobs or {}
@@ -130,12 +131,12 @@ class RpcServer(PduPeer):
     def _fault(self, conn, status: int, ctx_id: int = 0, call_id: int = 1) -> None:
         conn.world.stats["srv_fault"] += 1
         self.log.append({"conn": conn.cid, "event": "fault_sent", "status": status})
-        conn.peer_send(rpce.build_fault(status, ctx_id=ctx_id, call_id=call_id))
+        conn.peer_send(self.codec.build_fault(status, ctx_id=ctx_id, call_id=call_id))
 
     def handle_pdu(self, conn, idx: int, raw: bytes) -> None:
         st = conn.st
         try:
-            pdu = rpce.parse_pdu(raw)
+            pdu = self.codec.parse_pdu(raw)
         except (rpce.WireError, Exception) as e:  # noqa: BLE001
             self.violations.append(f"undecodable PDU from client: {e}")
             self.log.append({"conn": conn.cid, "event": "undecodable", "error": str(e), "raw": raw})
@@ -197,14 +198,14 @@ class RpcServer(PduPeer):
         results = self._results(st, pdu["contexts"], True)
         ok, auth = self._auth_step(conn, st, pdu)
         if not ok:
-            conn.peer_send(rpce.build_bind_nak(reason=8, call_id=pdu["call_id"]))  # authentication type not recognized / invalid
+            conn.peer_send(self.codec.build_bind_nak(reason=8, call_id=pdu["call_id"]))  # authentication type not recognized / invalid
             return
         flags = rpce.PFC_FIRST | rpce.PFC_LAST
         st.header_sign = bool(pdu["flags"] & rpce.PFC_HDR_SIGN) and bool(self.knobs.get("header_sign", True))
         if st.header_sign:
             flags |= rpce.PFC_HDR_SIGN
         sec_addr = self.knobs.get("sec_addr", str(conn.port))
-        conn.peer_send(rpce.build_bind_ack(results, flags=flags, sec_addr=sec_addr, auth=auth, call_id=pdu["call_id"],
+        conn.peer_send(self.codec.build_bind_ack(results, flags=flags, sec_addr=sec_addr, auth=auth, call_id=pdu["call_id"],
                                            assoc=self.knobs.get("assoc", 0x5EED)))
 
     def _alter(self, conn, st, pdu, entry) -> None:
@@ -216,7 +217,7 @@ class RpcServer(PduPeer):
         flags = rpce.PFC_FIRST | rpce.PFC_LAST
         if st.header_sign:
             flags |= rpce.PFC_HDR_SIGN
-        conn.peer_send(rpce.build_bind_ack(results, ptype=rpce.ALTER_CONTEXT_RESP, flags=flags, sec_addr="", auth=auth,
+        conn.peer_send(self.codec.build_bind_ack(results, ptype=rpce.ALTER_CONTEXT_RESP, flags=flags, sec_addr="", auth=auth,
                                            call_id=pdu["call_id"], assoc=self.knobs.get("assoc", 0x5EED)))
 
     def _request(self, conn, st, pdu, entry, raw: bytes) -> None:
@@ -260,7 +261,7 @@ class RpcServer(PduPeer):
 
     def send_response(self, conn, st, stub: bytes, ctx_id: int, call_id: int, seal: bool) -> None:
         if not seal:
-            conn.peer_send(rpce.build_response(stub, ctx_id=ctx_id, call_id=call_id))
+            conn.peer_send(self.codec.build_response(stub, ctx_id=ctx_id, call_id=call_id))
             return
         mode = self.knobs.get("pad_mode", "min16")
         if mode == "min16":
@@ -276,7 +277,7 @@ class RpcServer(PduPeer):
         # padding octets are not required to be zero: a non-zero fill makes un-stripped padding observable
         body = stub + bytes([self.knobs.get("pad_fill", 0xA5)]) * pad
         sig_len = st.acceptor.sig_size
-        pdu = bytearray(rpce.build_response(body, ctx_id=ctx_id, call_id=call_id, alloc_hint=len(body),
+        pdu = bytearray(self.codec.build_response(body, ctx_id=ctx_id, call_id=call_id, alloc_hint=len(body),
                                             auth={"type": st.auth_type, "level": st.auth_level, "pad": pad, "ctx": st.auth_ctx,
                                                   "value": b"\x00" * sig_len}))
         off = 24 + len(body)
